@@ -124,3 +124,11 @@ CLAIMED["C04"] = dict(
 )
 CLAIMED["C05"]["text"] = CLAIMED["C05"]["text"].replace("thl and exhaustive against the complete optimal set of a brute-force oracle on the C01 scope.",
     "thl, exhaustive, base_spfs, ext_spfs, base_uspfs and superdtl against the complete optimal set of the brute-force oracles on the C01-C03 scopes, and the tag clauses of the three step-function recurrence contracts evaluated at run time on random tables.")
+
+CLAIMED["C08"] = dict(
+    text="Bounded (labelled exploration): (1) utils.trees.binarize is run on EVERY rooted tree shape with arbitrary arities up to 5 (6 thorough) leaves (exhaustive), with and without colour annotations and unnamed nodes, and its output is "
+         "compared with an independent enumeration of all binary trees displaying the original clades: binary, clades / names / colours kept, each refinement exactly once, (2k-3)!! per node; (2) ReconciliationInput.binarize + label_internal on random "
+         "multifurcating inputs (leaf data, costs, names that look like generated labels); (3) the two extended solvers on multifurcating inputs against the minimum over all independent refinements of the binary-input oracle optimum, and every returned "
+         "solution refers to binary trees keeping clades, names, colours and leaf data. Of the cone only Entry.update (the result entry fed by every refinement) is proved; the enumerator code is ete3-bound (copy, topology ids, Newick re-parsing) and outside the verifier's reach.",
+    note="Trusted: the independent refinement generator and the C02/C03 oracles (standin/c08.py, standin/srec.py); stated bounds.",
+)
